@@ -43,6 +43,7 @@ DEGENERATE = [
     ('coincident-points', [[50, 40], [50, 40], [90, 40], [90, 40]], (12, 4)),
     ('zero-heights', [[50, 40], [150, 40]], (0, 0)),
     ('zero-ascender', [[50, 40], [150, 40]], (0, 6)),
+    ('zero-heights-numpy', [[50, 40], [150, 40]], 'np0'),
     ('right-to-left', [[150, 40], [50, 45]], (12, 4)),
     ('outside-the-page', [[-200, -50], [-100, -50]], (12, 4)),
 ]
@@ -118,6 +119,8 @@ def check_degenerate(case, ctx):
     from pero_ocr.core.layout import PageLayout, RegionLayout, TextLine
     from pero_ocr.document_ocr.page_parser import LineCropper
     name, pts, heights = DEGENERATE[case['degenerate']]
+    if isinstance(heights, str):
+        heights = np.zeros(2, dtype=np.float64)          # zero heights as numpy values (ALTO import, guessed heights)
     poly = case['poly']
     ctx.state(('deg', name, poly))
     img = (coord_image()[:, :, :3] % 256).astype(np.uint8)
@@ -276,6 +279,16 @@ def check_case(case, ctx):
         ctx.nontrivial((tuple(map(tuple, pts)), poly), 'curved-baselines')
     if len(pts) >= 4 and poly == 0:
         ctx.tag('cubic-with-4-or-more-points')
+    # the baseline may be held in any numeric array type (unsigned ints, floats with integral values): same crop
+    if case['start'] == 0 and case['h'] == 0 and case['slope'] in (0, 4, 5):
+        for dt in (np.uint16, np.uint32, np.int32, np.float32):
+            other = eng.crop(img, np.asarray(pts, dtype=dt), [h_up, h_down])
+            ctx.executed()
+            if other.shape != crop.shape or np.abs(other.astype(np.float64) - crop.astype(np.float64)).max() > 1e-3:
+                ctx.violation('samples-the-band', f'{K}/crop-depends-on-baseline-dtype',
+                              f'{desc}: the same baseline given as {np.dtype(dt).name} array yields a different crop ({other.shape} vs {crop.shape})')
+                return
+        ctx.tag('baseline-dtypes')
     # general path (partly outside) vs fast path (same line inside a larger canvas): same pixels
     if case['start'] in (1, 2) and case['h'] == 0:
         ox, oy = 60, 50
@@ -355,5 +368,5 @@ def describe(tier):
                         'for degenerate baselines both a proper crop and a blank image of the configured height are accepted'],
         'min_nontrivial': 100,
         'required_tags': ['curved-baselines', 'cubic-with-4-or-more-points', 'general-path-vs-fast-path', 'fast-path-vs-full-remap',
-                          'degenerate-baselines', 'cropped-twice', 'line-cropper-partly-outside'],
+                          'degenerate-baselines', 'cropped-twice', 'line-cropper-partly-outside', 'baseline-dtypes'],
     }
